@@ -45,6 +45,11 @@ def _type_of(module, ann):
     return t
 
 
+def _fw_call_ok(fi):
+    cs = [c for c in calls_in(fi.node) if U(c.func) == "fixed_width_binning"]
+    return bool(cs) and all(U(kwarg(c, "bin_width")) == "(max_ - min_) / bin_count" and U(kwarg(c, "range")) == "(min_, max_)" for c in cs)
+
+
 def run(ctx):
     m = ctx.model
     con = m.module("_construction")
@@ -286,14 +291,14 @@ def run(ctx):
     g2 = m.module("compat.geant4").functions["_create_h2"]
     ctx.saw(g2)
     t2 = U(g2.node)
-    okg2 = "bin_width=(max_ - min_) / bin_count, range=(min_, max_)" in t2 and "frequencies = data[:, 1].reshape([b + 2 for b in shape])" in t2 \
+    okg2 = _fw_call_ok(g2) and "frequencies = data[:, 1].reshape([b + 2 for b in shape])" in t2 \
         and "frequencies = frequencies[1:-1, 1:-1]" in t2 and "errors2 = data[:, 2].reshape([b + 2 for b in shape])" in t2 and "errors2 = errors2[1:-1, 1:-1]" in t2
     c2 = [c for c in calls_in(g2.node) if U(c.func) == "Histogram2D" and c.keywords]
     okg2 = okg2 and bool(c2) and all(U(kwarg(c2[-1], k_)) == k_ for k_ in ("binnings", "frequencies", "errors2"))
     ctx.check(okg2, "C17.e", "geant4._create_h2", "per axis (max - min) / count wide bins over (min, max); column 1 -> contents, column 2 -> errors2, outer rows / columns cut off",
               "the Geant4 2-D reader no longer maps columns 1 / 2 to contents / squared errors over the declared axes", g2.where)
     t1 = U(g4.node)
-    ctx.check("bin_width=(max_ - min_) / bin_count, range=(min_, max_)" in t1 and any(U(kwarg(c, "stats")) == "stats" for c in calls_in(g4.node) if U(c.func) == "Histogram1D"),
+    ctx.check(_fw_call_ok(g4) and any(U(kwarg(c, "stats")) == "stats" for c in calls_in(g4.node) if U(c.func) == "Histogram1D"),
               "C17.e", "geant4._create_h1:bins-and-stats", "bins of width (max - min) / count over (min, max); the sums reach the histogram as statistics",
               "the Geant4 1-D reader changed its bin width formula or drops the statistics", g4.where)
     ctx.check("return Dataset(data_vars, coords, attrs)" in U(tx.node), "C17.e", "to_xarray:dataset", "Dataset(data_vars, coords, attrs)",
